@@ -2,6 +2,7 @@
 package c05
 
 import (
+	"context"
 	"errors"
 	"fmt"
 	"github.com/ajitpratap0/GoSQLX/pkg/sql/tokenizer"
@@ -9,6 +10,7 @@ import (
 	"strings"
 
 	gerrors "github.com/ajitpratap0/GoSQLX/pkg/errors"
+	"github.com/ajitpratap0/GoSQLX/pkg/gosqlx"
 	"github.com/ajitpratap0/GoSQLX/pkg/models"
 	"github.com/ajitpratap0/GoSQLX/pkg/sql/parser"
 
@@ -401,7 +403,7 @@ func Check() *common.Check {
 		CrashSafe: true,
 		Rule: "the whole lexical space of C04 (all lexeme pairs x 7 (quick) / 43 (thorough) separator classes, reduced triples, every lexeme first/last, keywords, comment catalogue x placement, 3-lexeme multi-line layouts with blank lines, " +
 			"indentation, CRLF, tabs, comments before tokens, multi-line and non-ASCII literals): every token, end marker and comment is checked for 1-based, Start<=End<=next.Start, non-decreasing, inside the input, exact line, " +
-			"exact column on ASCII tab-free lines; all strings of <=3 (quick) / <=4 (thorough) fragments over the 37-fragment alphabet with the reference lexer's offsets as expected spans; error locations: unterminated literal/comment x prefix layouts, every lexeme x every rejected hostile byte x 3 placements, and the first N statements of every sqlgen section " +
+			"exact column on ASCII tab-free lines; all strings of <=3 (quick) / <=4 (thorough) fragments over the 37-fragment alphabet with the reference lexer's offsets as expected spans; error locations: unterminated literal/comment x prefix layouts, the same inputs behind / in front of 5 x 3 paddings through 8 text entry points (the location must be the tokenizer's for that text), every lexeme x every rejected hostile byte x 3 placements, and the first N statements of every sqlgen section " +
 			"(N=400 quick / 3000 thorough: every clause option, DML and DDL case in both tiers) x 4 layouts x {control byte, backslash} inserted at every token boundary (tokenizer error) and a stray ']' inserted at every token boundary (ParseFromModelTokensWithPositions error); " +
 			"distinct = distinct case key; non-trivial = multi-line, or containing a comment, tab, non-ASCII character or multi-line literal, or an error-location case",
 		Assume: []string{
@@ -499,6 +501,63 @@ func enumerate(e *common.Enum) {
 			})
 			c.NonTrivial()
 		})
+	})
+
+	// (2b) the same lexical errors through every entry point that takes text, behind and in front of blank lines and
+	// indentation: whatever an entry point does to the text before it tokenizes it (trimming, splitting, copying), the
+	// location it reports is a location in the caller's text - the one the tokenizer itself reports for that text
+	type textEntry struct {
+		name string
+		run  func(text string) error
+	}
+	textEntries := []textEntry{
+		{"parser.Validate", func(t string) error { return parser.Validate(t) }},
+		{"parser.ValidateBytes", func(t string) error { return parser.ValidateBytes([]byte(t)) }},
+		{"parser.ValidateWithDialect", func(t string) error { return parser.ValidateWithDialect(t, "postgresql") }},
+		{"parser.ParseBytes", func(t string) error { _, err := parser.ParseBytes([]byte(t)); return err }},
+		{"gosqlx.Validate", func(t string) error { return gosqlx.Validate(t) }},
+		{"gosqlx.Parse", func(t string) error { _, err := gosqlx.Parse(t); return err }},
+		{"gosqlx.ParseWithContext", func(t string) error { _, err := gosqlx.ParseWithContext(context.Background(), t); return err }},
+		{"gosqlx.ParseWithRecovery", func(t string) error {
+			_, errs := gosqlx.ParseWithRecovery(t)
+			if len(errs) == 0 {
+				return nil
+			}
+			return errs[0]
+		}},
+	}
+	lexgen.Unterminated(func(u lexgen.Unterm) {
+		for pi, pre := range []string{"", "\n\n\n", "   \t", "\r\n  \r\n ", "\n-- c\n"} {
+			for si, suf := range []string{"", "\n\n", "   "} {
+				if pi == 0 && si == 0 {
+					continue
+				}
+				text := pre + u.Text + suf
+				e.Do(fmt.Sprintf("%s|entry|%d|%d", u.Key, pi, si), func(c *common.Ctx) {
+					c.Input(text)
+					ref := lexgen.Tokenize(text)
+					if ref.Err == nil || ref.Code == "" || ref.Loc.Line == 0 {
+						c.Outcome("entry-point:no-tokenizer-location")
+						return
+					}
+					for _, te := range textEntries {
+						err := te.run(text)
+						if err == nil {
+							continue // accept / reject agreement is C07's business
+						}
+						code, loc, ok := lexgen.ErrInfo(err)
+						if !ok || code != ref.Code || (loc.Line == 0 && loc.Column == 0) {
+							continue
+						}
+						if loc.Line != ref.Loc.Line || loc.Column != ref.Loc.Column {
+							emit(c, []fail{{"errloc:entry-point:" + te.name + ":" + code, fmt.Sprintf("%s locates the %s error at %s, the tokenizer locates it at %s in the same text", te.name, code, locStr(loc), locStr(ref.Loc))}})
+						}
+					}
+					c.Outcome("entry-point:compared")
+					c.NonTrivial()
+				})
+			}
+		}
 	})
 
 	// (3) every lexeme next to every hostile byte that starts no lexical element: error located at that byte
